@@ -23,6 +23,9 @@ mod trace;
 
 pub(crate) mod internals;
 
+#[cfg(boa_verif)]
+pub mod verif;
+
 use internals::{EphemeronBox, ErasedEphemeronBox, ErasedWeakMapBox, WeakMapBox};
 use pointers::{NonTraceable, RawWeakMap};
 use std::{
@@ -186,6 +189,13 @@ impl Allocator {
     }
 
     fn manage_state(gc: &mut BoaGc) {
+        #[cfg(boa_verif)]
+        if let Some(collect_now) = verif::decide(gc.runtime.bytes_allocated) {
+            if collect_now {
+                Collector::collect(gc);
+            }
+            return;
+        }
         if gc.runtime.bytes_allocated > gc.config.threshold {
             Collector::collect(gc);
 
